@@ -273,7 +273,24 @@ impl Prop for C08 {
             cfg.unset("inspect-raw-lines");
             cfg.unset("max-line-length");
             cfg.unset("tabs");
-            let with_map = t.chance(1, 3);
+            let with_map0 = t.chance(1, 3);
+            // an element whose style is `raw` keeps its input colouring: removed (or added) lines
+            // under `--minus-style raw` (`--plus-style raw`) keep git's own red/green - whether
+            // or not raw lines are inspected for moved-line colours (`--inspect-raw-lines`)
+            let raw_kind: Option<LK> = match t.weighted(&[6, 1, 1]) {
+                0 => None,
+                1 => Some(LK::Minus),
+                _ => Some(LK::Plus),
+            };
+            let inspect_off = raw_kind.is_some() && t.coin();
+            if let Some(k) = raw_kind {
+                cfg.set(if k == LK::Minus { "minus-style" } else { "plus-style" }, "raw");
+                if inspect_off {
+                    cfg.set("inspect-raw-lines", "false");
+                }
+                ctx.class(if inspect_off { "raw-hunk-style+inspect-raw-lines-off" } else { "raw-hunk-style" });
+            }
+            let with_map = with_map0 && raw_kind.is_none();
             let mut lines = plain_lines.clone();
             let mut moved: Vec<Moved> = Vec::new();
             let mut map_from: Option<(String, Sgr)> = None;
@@ -283,7 +300,19 @@ impl Prop for C08 {
                         continue;
                     }
                     if !t.chance(1, 3) {
+                        if Some(*kind) == raw_kind {
+                            // git's plain colouring of this line: must be kept under a raw style
+                            let (code, idx) = if *kind == LK::Minus { ("31", 1u8) } else { ("32", 2u8) };
+                            let (m, rest) = l.text.split_at(1);
+                            let body = rest.to_string();
+                            let st = Sgr { fg: Color::Idx(idx), ..Sgr::default() };
+                            l.text = format!("\x1b[{}m{}{}\x1b[m", code, m, rest);
+                            moved.push(Moved { line: i, kind: *kind, text: body, st, params: code.to_string() });
+                        }
                         continue;
+                    }
+                    if inspect_off && Some(*kind) != raw_kind {
+                        continue; // (moved-line colours are not looked at when inspection is off)
                     }
                     let (params, st) = gen_rendition(t);
                     // plain red / plain green is git's default: not a moved line
